@@ -199,7 +199,7 @@ fn h_engine(ctx: &Ctx) {
         vec![s(&["b", "Ab", "abab"]), s(&["a1", "A1", "b"]), s(&["a", "ab", "abb"])]
     };
     let ops: Vec<Op> = if thorough {
-        let mut v: Vec<Op> = [D, ND, S, NS, W, NW, R, I, G, X, NA, NE, C].iter().map(|b| Op::Flag(*b)).collect();
+        let mut v: Vec<Op> = [D, S, W, NW, R, I, G, X, NA, NE].iter().map(|b| Op::Flag(*b)).collect();
         v.extend([Op::EscapeNoSurr, Op::EscapeSurr, Op::Anchors, Op::MinRep(1), Op::MinRep(2), Op::MinLen(1), Op::MinLen(2), Op::Build, Op::CloneOp]);
         v
     } else {
